@@ -13,21 +13,23 @@ structure Same (s s' : NS) : Prop where
   places : s'.places = s.places
   pd : s'.placeDict = s.placeDict
   awaited : s'.awaited = s.awaited
+  tsize : s'.tasks.size = s.tasks.size
+  svcs : s'.svcs = s.svcs
 
-theorem Same.rfl' (s : NS) : Same s s := ⟨rfl, rfl, rfl, rfl, rfl⟩
+theorem Same.rfl' (s : NS) : Same s s := ⟨rfl, rfl, rfl, rfl, rfl, rfl, rfl⟩
 theorem Same.trans' {a b c : NS} (h1 : Same a b) (h2 : Same b c) : Same a c :=
   ⟨h2.trans.trans h1.trans, h2.cbs.trans h1.cbs, h2.places.trans h1.places, h2.pd.trans h1.pd,
-   h2.awaited.trans h1.awaited⟩
+   h2.awaited.trans h1.awaited, h2.tsize.trans h1.tsize, h2.svcs.trans h1.svcs⟩
 
 theorem same_raise (s : NS) (e : String) : Same s (s.raise e) := by
-  unfold NS.raise; split <;> exact ⟨rfl, rfl, rfl, rfl, rfl⟩
+  unfold NS.raise; split <;> exact ⟨rfl, rfl, rfl, rfl, rfl, rfl, rfl⟩
 
 theorem same_outOfFuel (s : NS) : Same s s.outOfFuel := by
   unfold NS.outOfFuel
   have := same_raise s "outOfFuel"
-  exact ⟨this.trans, this.cbs, this.places, this.pd, this.awaited⟩
+  exact ⟨this.trans, this.cbs, this.places, this.pd, this.awaited, this.tsize, this.svcs⟩
 
-theorem same_emit (s : NS) (o : NOut) : Same s (s.emit o) := ⟨rfl, rfl, rfl, rfl, rfl⟩
+theorem same_emit (s : NS) (o : NOut) : Same s (s.emit o) := ⟨rfl, rfl, rfl, rfl, rfl, rfl, rfl⟩
 
 theorem same_foldl_emit {α} (g : α → NOut) : ∀ (l : List α) (s : NS),
     Same s (l.foldl (fun s a => s.emit (g a)) s)
@@ -43,14 +45,14 @@ theorem same_netAll (s : NS) : Same s s.netAll := by
   unfold NS.netAll; exact same_foldl_emit (fun o => NOut.netUpd o) s.observers s
 
 theorem same_evalExpr (s : NS) (ee : EE) (e : Expr) (ctx : Nat) : Same s (s.evalExpr ee e ctx).2 := by
-  unfold NS.evalExpr; exact ⟨rfl, rfl, rfl, rfl, rfl⟩
+  unfold NS.evalExpr; exact ⟨rfl, rfl, rfl, rfl, rfl, rfl, rfl⟩
 
 theorem same_readLimit (s : NS) (ee : EE) (lim : Limit) (ctx : Nat) : Same s (s.readLimit ee lim ctx).2 := by
   unfold NS.readLimit
   split
   · exact Same.rfl' s
   · exact Same.rfl' s
-  · exact ⟨rfl, rfl, rfl, rfl, rfl⟩
+  · exact ⟨rfl, rfl, rfl, rfl, rfl, rfl, rfl⟩
 
 theorem same_substitute (s : NS) (c : Option Nat) (ps : List Param) : Same s (s.substitute c ps).2 := by
   unfold NS.substitute
@@ -58,7 +60,7 @@ theorem same_substitute (s : NS) (c : Option Nat) (ps : List Param) : Same s (s.
   · exact Same.rfl' s
   · split
     · exact Same.rfl' s
-    · exact ⟨rfl, rfl, rfl, rfl, rfl⟩
+    · exact ⟨rfl, rfl, rfl, rfl, rfl, rfl, rfl⟩
 
 /-- the callbacks put tokens only on places of weight zero -/
 def Cb.CtlZero (w : Nat → Int) : Cb → Prop
@@ -204,9 +206,9 @@ theorem Inv.fire (hc : Cert w T C np) {s : NS} (h : Inv w T C np c s) (i : Nat) 
   · rw [wsum_fireT w s i tr htr hb.1 hen (by rw [h.size]; exact hb.2.1), h.sum, hb.2.2]; omega
 
 theorem same_bumpCounter (s : NS) (ctx line : Nat) (var : String) : Same s (s.bumpCounter ctx line var).2 := by
-  unfold NS.bumpCounter; exact ⟨rfl, rfl, rfl, rfl, rfl⟩
+  unfold NS.bumpCounter; exact ⟨rfl, rfl, rfl, rfl, rfl, rfl, rfl⟩
 theorem same_dropCounter (s : NS) (ctx line : Nat) (var : String) : Same s (s.dropCounter ctx line var) := by
-  unfold NS.dropCounter; exact ⟨rfl, rfl, rfl, rfl, rfl⟩
+  unfold NS.dropCounter; exact ⟨rfl, rfl, rfl, rfl, rfl, rfl, rfl⟩
 theorem same_of_bumpCounter_eq {s s' : NS} {ctx line : Nat} {var : String} {c0 : Nat}
     (h : s.bumpCounter ctx line var = (c0, s')) : Same s s' := by
   have := same_bumpCounter s ctx line var; rw [h] at this; exact this
@@ -231,7 +233,8 @@ theorem Same.taskStarted (f : Nat) (t : Nat) (s : NS) : Same s (runCb ee (f+1) (
     refine Same.trans' ?_ (same_logAll _ _ _)
     refine Same.trans' ?_ (same_foldl_emit _ _ _)
     have := same_of_substitute_eq hsub
-    exact ⟨this.trans, this.cbs, this.places, this.pd, this.awaited⟩
+    exact ⟨this.trans, this.cbs, this.places, this.pd, this.awaited,
+      (by show (Array.modify _ _ _).size = _; rw [Array.size_modify]; exact this.tsize), this.svcs⟩
 
 theorem Same.taskFinished (f : Nat) (t : Nat) (s : NS) : Same s (runCb ee (f+1) (.taskFinished t) s) := by
   simp only [Net.runCb]
@@ -239,7 +242,7 @@ theorem Same.taskFinished (f : Nat) (t : Nat) (s : NS) : Same s (runCb ee (f+1) 
   split
   · refine Same.trans' ?_ (same_logAll _ _ _)
     refine Same.trans' ?_ (same_netAll _)
-    exact ⟨h0.trans, h0.cbs, h0.places, h0.pd, h0.awaited⟩
+    exact ⟨h0.trans, h0.cbs, h0.places, h0.pd, h0.awaited, h0.tsize, h0.svcs⟩
   · exact h0.trans' (same_logAll _ _ _)
 
 theorem keeps_succ (hc : Cert w T C np) (f : Nat) (ih : Keeps w T C np c ee f) : Keeps w T C np c ee (f+1) where
